@@ -605,7 +605,9 @@ def r5_names_and_zips(ctx):
                 same = _zip_same_length(fn, c)
                 ok = same or txt in table
                 ctx.check(ok, f"{fn.qual}#zip", ("operands have the same length by construction" if same else table.get(txt, "")) if ok else f"unreviewed pairing {txt[:110]}: zip silently truncates when the operands differ in length", where=fn, node=c)
-    ctx.floor(n, 8)
+    # a pairing that disappears (zip(count(i), xs) rewritten as a range) is not a risk; the floor only guards
+    # against the matcher going blind on the observation code as a whole
+    ctx.floor(n, 5)
     d = ctx.func(f"{OD}:_run_pipelines_array_to_datatree")
     g = ctx.cfg(d)
     gi = [i for i in raising_ifs(d.node) if {norm(i.test.left), norm(i.test.comparators[0])} == {"len(dimension_names)", "len(params_tuple)"} and isinstance(i.test.ops[0], ast.NotEq)] if True else []
